@@ -156,8 +156,13 @@ func (v *DataModelView) DrawRelation(
 		} else if kind, elem := collectionOf(attrType); elem != nil {
 			appName, path, label, isPrimitive := getNames(elem)
 			s = fmt.Sprintf("+ %s : **%s <%s>**\n", attrName, kind, label)
-			if !isPrimitive && viewParam.Types[appName+"."+path[0]] != nil {
-				targetEntity := v.UniqueVarForAppName(path[0])
+			if target := viewParam.Types[appName+"."+path[0]]; !isPrimitive && target != nil {
+				// tables and primitive aliases are declared under their short name, the other
+				// types under <app>.<type>
+				targetEntity := v.UniqueVarForAppName(appName, path[0])
+				if target.GetRelation() != nil || target.GetPrimitive() != sysl.Type_NO_Primitive {
+					targetEntity = v.UniqueVarForAppName(path[0])
+				}
 				if _, exists := relationshipMap[encEntity]; !exists {
 					relationshipMap[encEntity] = map[string]RelationshipParam{}
 				}
@@ -284,13 +289,18 @@ func (v *DataModelView) DrawTuple(
 					typeName = path[1]
 				}
 				if viewParam.Types[appName+"."+typeName] == nil && viewParam.Types[typeName] == nil {
-					// a field holding an in-place tuple refers to the nested type <EntityName>.<typeName>
 					owner := strings.SplitN(viewParam.EntityName, ".", 2)
-					if len(path) != 1 || len(owner) != 2 || viewParam.Types[viewParam.EntityName+"."+typeName] == nil {
+					switch {
+					case len(owner) == 2 && len(path) == 1 && viewParam.Types[viewParam.EntityName+"."+typeName] != nil:
+						// a field holding an in-place tuple refers to the nested type <EntityName>.<typeName>
+						appName, typeName = owner[0], owner[1]+"."+typeName
+					case len(owner) == 2 && len(path) == 2 && viewParam.Types[owner[0]+"."+path[0]+"."+path[1]] != nil:
+						// Outer.inner names a type nested in a type of this application, not App.Type
+						appName, typeName = owner[0], path[0]+"."+path[1]
+					default:
 						v.StringBuilder.WriteString(collectionString)
 						continue
 					}
-					appName, typeName = owner[0], owner[1]+"."+typeName
 				}
 				v.StringBuilder.WriteString(collectionString)
 				if _, mulRelation := relationshipMap[encEntity][v.UniqueVarForAppName(appName, typeName)]; mulRelation {
